@@ -189,6 +189,16 @@ func RunC14(ch *core.Chooser, env *Env) *Outcome {
 		out.Sample["trace"] = renderTrace(res.Trace, 400)
 	}
 
+	if res.SpecBlocked || res.SpecSkipped {
+		out.Skipped = true
+		out.Violation = nil
+		if res.SpecBlocked {
+			out.Probes["speculative_release_blocked_run_abandoned"]++
+		} else {
+			out.Probes["speculative_run_not_executed_in_this_mode"]++
+		}
+		return out
+	}
 	switch {
 	case len(res.Panics) > 0:
 		out.Violation = &Violation{Class: "panic", Detail: res.Panics[0]}
@@ -224,6 +234,7 @@ func addProbes(out *Outcome, p *core.Probes) {
 	out.Probes["pooled_request_seen_by_two_tasks"] += p.PoolHandoff
 	out.Probes["preemptions"] += p.Preemptions
 	out.Probes["lock_tracking_corrected_by_real_probe"] += p.TrackingCorrected
+	out.Probes["speculative_release_did_not_block"] += p.SpecPassed
 	if p.MaxEnabled > out.Probes["max_enabled_tasks"] {
 		out.Probes["max_enabled_tasks"] = p.MaxEnabled
 	}
